@@ -36,7 +36,7 @@ def pointStr (hist : Bool) (p : Point) : String :=
   if hist then
     s!"{stampStr p.ts},id={p.id},n={hSum p.hn true},ops={hSum p.hops true},size={hSum p.hsize true},errors={hSum p.herrors true},dur={hSum p.hdur false},total={hSum p.htotal false p.elapsedParts},state={p.state},workers={p.workers},failed={f}"
   else
-    s!"{stampStr p.ts},id={p.id},n={p.n},ops={p.ops},size={p.size},errors={p.errors},dur={p.dur},total={p.total / 1000000000},state={p.state},workers={p.workers},failed={f}"
+    s!"{stampStr p.ts},id={p.id},n={p.n},ops={p.ops},size={p.size},errors={p.errors},dur={p.dur},total={p.total / 1000000000}{if p.elapsedParts > 0 then "e" else ""},state={p.state},workers={p.workers},failed={f}"
 
 def kindOf (k : String) : Option Kind :=
   match k with
